@@ -13,7 +13,7 @@ EXPLANATION = (
     "stubs; every string the window writes is fed to the reference terminal model (sa/termmodel.py), which also answers "
     "the cursor position query.  For a catalogue of terminal sizes, initial screens (0 .. more than a screenful of "
     "pre-existing lines; the cursor on the line after the output or moved up onto a row that already holds output) and "
-    "histories of renders (for every ordered pair of arrays A, B of the pool: A, B, A; arrays of height 0 .. beyond the "
+    "histories of renders (for every ordered pair of arrays A, B of the pool: A, A again, B, A; arrays of height 0 .. beyond the "
     "screen, rows shared between renders, rows differing only in formatting, empty rows, plain str rows, full-width rows, arrays that continue a "
     "scrolled one; keep_last_line / hide_cursor on and off) followed by __exit__, the model is compared with an "
     "independent statement of the property in absolute line numbers (scrollback + screen): W = window top, S = lines "
@@ -182,7 +182,7 @@ def rule_semantic(src, rep, counts):
         h, w, i, j, k, keep, hide = job
         arrs = array_pool(pool, h, w, rep.tier)
         init = initial_screens(h, w, rep.tier)[k]
-        steps = [(arrs[i][0], arrs[i][1], i % 2), (arrs[j][0], arrs[j][1], (j + 1) % 2), (arrs[i][0], arrs[i][1], 0)]
+        steps = [(arrs[i][0], arrs[i][1], i % 2), (arrs[i][0], arrs[i][1], (i + 1) % 2), (arrs[j][0], arrs[j][1], (j + 1) % 2), (arrs[i][0], arrs[i][1], 0)]
         try:
             return run_history(it, h, w, init, steps, keep, hide)
         except AnalysisError as e:
